@@ -286,14 +286,45 @@ func opRun(c *wire.Case, res *wire.Result) {
 	if v == nil {
 		return
 	}
-	for _, t := range c.Texts {
+	type rendered struct {
+		ms    engine.Matches
+		j, fj string
+		ti    int
+	}
+	var kept []rendered
+	for ti, t := range c.Texts {
 		text := string(t)
 		r, ms := monitoredRun(c, func() engine.Matches { return v.Run(text) })
 		if ms == nil {
 			ms = engine.Matches{}
 		}
 		renderJSON(c, &r, ms)
+		if c.WantJSON && r.JSONErr == nil && r.FJSONErr == nil && r.Panic == nil && r.Budget == "" && len(ms) > 0 {
+			kept = append(kept, rendered{ms, string(r.JSON), string(r.FJSON), ti})
+		}
 		res.Runs = append(res.Runs, r)
+	}
+	// a caller may keep one result buffer and refill it: the rendering is a function of what the list holds NOW
+	for a := 0; a < len(kept) && res.Mismatch == ""; a++ {
+		for b := 0; b < len(kept); b++ {
+			if a == b || len(kept[a].ms) != len(kept[b].ms) || kept[a].j == kept[b].j {
+				continue
+			}
+			buf := kept[a].ms
+			saved := append(engine.Matches{}, buf...)
+			var j, fj string
+			func() {
+				defer func() { recover() }()
+				_, _ = buf.Json(), buf.FormattedJson() // rendered with its own matches last of all ...
+				copy(buf, kept[b].ms)                   // ... refilled in place ...
+				j, fj = buf.Json(), buf.FormattedJson() // ... and rendered again
+			}()
+			copy(buf, saved)
+			if j != kept[b].j || fj != kept[b].fj {
+				res.Mismatch = fmt.Sprintf("result list of text %d, rendered, then refilled in place with the %d matches of text %d: rendered again it gives %.120s where the list now holds %.120s", kept[a].ti, len(buf), kept[b].ti, j, kept[b].j)
+			}
+			break
+		}
 	}
 	if c.WantBC {
 		d, _ := canonical(v.VerifBytecode())
@@ -467,6 +498,14 @@ func (r *splitmix) intn(n int) int {
 // returned string against the ground-truth bytes and against ReaderFromString.
 func opReader(c *wire.Case, res *wire.Result) {
 	truth := c.Truth
+	if c.TruthFromFile {
+		b, err := os.ReadFile(c.Path)
+		if err != nil {
+			res.Mismatch = "harness: " + err.Error()
+			return
+		}
+		truth = b
+	}
 	size := len(truth)
 	counters := map[string]int{}
 	res.Counters = counters
@@ -502,6 +541,14 @@ func opReader(c *wire.Case, res *wire.Result) {
 		return string(truth[off : off+length])
 	}
 	pickOff := func() int {
+		if size > 200000 && rng.intn(3) == 0 {
+			// large files: the last and the first 80 KiB, where windows are clamped
+			o := rng.intn(80 << 10)
+			if rng.intn(3) != 0 {
+				o = size - o
+			}
+			return o
+		}
 		switch rng.intn(8) {
 		case 0:
 			return 0
@@ -539,6 +586,13 @@ func opReader(c *wire.Case, res *wire.Result) {
 		}
 	}
 	pickLen := func() int {
+		if size > (1<<20) && rng.intn(40) == 0 {
+			// one read longer than a mebibyte, its length not a whole number of blocks
+			return (1 << 20) + rng.intn(1<<21) + 1
+		}
+		if size > 60000 && rng.intn(12) == 0 {
+			return []int{16384, 32768, 65536, 65537, 40000}[rng.intn(5)]
+		}
 		switch rng.intn(10) {
 		case 0:
 			return 1
